@@ -63,3 +63,17 @@ Print Assumptions C02_afm_ptrs.
 Theorem C02_afm_ast : forall d pm, afm_read_cst d = Ok pm -> forallb (fun c => node_shape_ok (c_ast c)) (pctcs pm) = true.
 Proof. exact afm_read_ctc_shape. Qed.
 Print Assumptions C02_afm_ast.
+
+(* non-vacuity: each reader accepts some non-trivial document (here: what the writer models produce for the
+   example models of the round-trip files), and the UVL premise [ucst_ok] holds for it *)
+Example C02_nonvacuous :
+  (exists d pm, json_write JsonFacts.ex_model = Ok d /\ json_read d = Ok pm)
+  /\ (exists d pm, cst_of_fm UvlFacts.ex_model = Ok d /\ uvl_read_cst d = Ok pm
+                   /\ forallb ucst_ok (match d_ctcs d with Some l => l | None => [] end) = true)
+  /\ (exists d pm, afm_cst afm_ex_model = Ok d /\ afm_read_cst d = Ok pm).
+Proof.
+  split; [vm_compute; do 2 eexists; split; reflexivity|].
+  split; [vm_compute; do 2 eexists; repeat split; reflexivity|].
+  vm_compute; do 2 eexists; split; reflexivity.
+Qed.
+Print Assumptions C02_nonvacuous.
